@@ -62,6 +62,7 @@ type HarnessResult struct {
 	CrossDisagree int                `json:"cross_disagreements"`
 	ReverseMaps   bool               `json:"reversed_map_order"`
 	Validation    []ValidationSample `json:"validation"`
+	FieldLog      []fieldAccess      `json:"field_lockset_log"`
 }
 
 type KnownOut struct {
@@ -277,6 +278,10 @@ func main() {
 			r.Intrinsics = append(r.Intrinsics, k)
 		}
 		sort.Strings(r.Intrinsics)
+		for _, fa := range fieldLog {
+			r.FieldLog = append(r.FieldLog, fa)
+		}
+		fieldLog = map[string]fieldAccess{}
 		if *cross > 0 {
 			r.CrossChecked, r.CrossDisagree = crossCheckSamples(ex2, *cross)
 		}
